@@ -347,6 +347,11 @@ func RunC05(c *Ctx) {
 		window, nrand = 5000, 4000000
 	}
 	workload.W1R(sink)
+	workload.W1D(func(cs *h.Case) {
+		if cs.P[3]>>8 <= 1 { // top-level contexts only
+			sink(cs)
+		}
+	})
 	workload.W6Ints(window, nrand, c.Seed, sink)
 	// the byte sweep over number tokens in W1 gives every byte at every position of short literals
 	workload.W1(false, func(cs *h.Case) {
